@@ -60,7 +60,7 @@ def tag_intro(tag):
 
 def plan(tier):
     return {
-        'level': 'exploration', 'shards': 16, 'budget_s': 70 if tier == 'quick' else 600, 'exhaustive': True,
+        'level': 'exploration', 'shards': 16, 'budget_s': 120 if tier == 'quick' else 600, 'exhaustive': True,
         'rule': 'the whole matrix: versions {1.0..1.4, 2.0} and 8 unsupported ones x every member of enums.Operation '
                 '(raw batch items) ; attribute names reported per version on all seven object types; attributes '
                 'accepted per version; requests carrying newer-version fields under every older version (Locate '
@@ -82,7 +82,7 @@ def cases(tier, seed):
     ops = list(O)
     for i in range(0, len(ops), 6):
         cs.append({'part': 'operations', 'ops': [o.name for o in ops[i:i + 6]]})
-    n = 12 if tier == 'quick' else 120
+    n = 48 if tier == 'quick' else 240
     cs += [{'part': 'traffic', 'i': i} for i in range(n)]
     return cs
 
